@@ -127,7 +127,41 @@ func checkC20(c *Ctx) {
 				}
 			}
 		})
-		if wr == nil || rn == nil || ms == nil {
+		if ms != nil && (wr == nil || rn == nil) {
+			// the file replacement was moved into a helper of the package: the same ordering, read across the call
+			wrL, okW := findOneDeep(f, nameIs("os.WriteFile", "io/ioutil.WriteFile"))
+			rnL, okR := findOneDeep(f, nameIs("os.Rename"))
+			if !okW || !okR || wrL.in != rnL.in {
+				r.Unk("C20.2", "saveClientConf: Marshal, WriteFile, Rename", f.Pos(), fnName(f), "expected calls not found")
+			} else {
+				h := wrL.in
+				wrc, rnc := wrL.call.(*ssa.Call), rnL.call.(*ssa.Call)
+				g1 := guardedDeep(wrL, Atom{"(" + orderEq(pathOf(ms)+"#1", "nil") + ")", true})
+				data := wrL.toRoot(pathOf(wrc.Call.Args[1]))
+				r.Check(g1 && strings.HasSuffix(pathOf(ms.Call.Args[0]), ".config") && strings.HasPrefix(data, pathOf(ms)+"#0"), "C20.2", "saveClientConf: writes the marshalled config only after Marshal succeeded", wrc.Pos(), fnName(f), "guarded by Marshal err == nil; data derives from Marshal(a.config)",
+					"the temporary file can be written although marshalling failed (or with other data): a truncated/foreign file is then renamed over the ClientConf")
+				g2 := guarded(h, rnc, Atom{"(" + orderEq(pathOf(wrc), "nil") + ")", true})
+				r.Check(g2, "C20.2", "saveClientConf: Rename only after the write succeeded", rnc.Pos(), fnName(f), "guarded by WriteFile err == nil",
+					"the temporary file is renamed over the ClientConf even when writing it failed: a partial file replaces the previous configuration")
+				r.Check(pathOf(rnc.Call.Args[0]) == pathOf(wrc.Call.Args[0]), "C20.2", "saveClientConf: the file renamed is the file written", rnc.Pos(), fnName(f), firstN(pathOf(rnc.Call.Args[0]), 80), "Rename's source is not the temporary file that was just written")
+				src, dst := pathOf(rnc.Call.Args[0]), pathOf(rnc.Call.Args[1])
+				sameDir := joinDirs(h, rnc.Call.Args[0]) != "" && joinDirs(h, rnc.Call.Args[0]) == joinDirs(h, rnc.Call.Args[1])
+				r.Check(sameDir && !strings.Contains(dst, "getRandString("), "C20.2", "saveClientConf: temporary and final name are joined onto the same directory; final name is deterministic", rnc.Pos(), fnName(f),
+					"dir="+joinDirs(h, rnc.Call.Args[1]), "the temporary file is not created in the directory of the final file ("+firstN(src, 60)+" vs "+firstN(dst, 60)+"): rename across directories/filesystems is not atomic (or fails)")
+				// the helper's outcome is the save's outcome
+				passThrough := false
+				eachInstr(f, func(in ssa.Instruction) {
+					if ret, ok := in.(*ssa.Return); ok && len(wrL.chain) > 0 && len(ret.Results) == 1 && stripConv(returnedValue(ret, 0, nil)) == ssa.Value(wrL.chain[0]) {
+						passThrough = true
+					}
+				})
+				if !passThrough && len(wrL.chain) > 0 {
+					// or tested: every failing edge of the helper call leads to an error return (C20.5 covers the values)
+					passThrough = len(edgesEstablishing(f, atomMatcher(errAtoms(wrL.chain[0], false)...))) > 0
+				}
+				r.Check(passThrough, "C20.2", "saveClientConf: the result of the file replacement is the result of the save", f.Pos(), fnName(f), "returned or tested", "the outcome of the helper that writes and renames the file is dropped")
+			}
+		} else if wr == nil || rn == nil || ms == nil {
 			r.Unk("C20.2", "saveClientConf: Marshal, WriteFile, Rename", f.Pos(), fnName(f), "expected calls not found")
 		} else {
 			g1 := guarded(f, wr, Atom{"(" + orderEq(pathOf(ms)+"#1", "nil") + ")", true})
